@@ -17,7 +17,8 @@ RULE = ("every connected labelled multigraph topology of the listed levels x ass
         "analysed at every frequency of an alphabet placed around the source frequencies (0, on a source frequency, "
         "+-res/2, +-2res, 2x, unrelated) with both resolutions, as peak and RMS phasors and as DC solution; judged when "
         "the phasor network at that frequency is well-posed (exact determinant per class); states = distinct "
-        "(circuit, w, resolution), transitions = library analyses judged; non-trivial = non-zero solution")
+        "(circuit, w, resolution), transitions = library analyses judged; non-trivial = non-zero solution"
+        ' Additions: sinusoidal sources with own frequency 0, microvolt / 0.1 uA sources, physical-unit kinds; the RMS object is asked again in the opposite order; the same circuit given with NumPy-scalar / int numbers and frequency.')
 ASSUMPTIONS = ["numpy.linalg accuracy on the palettes", "float cos/sin within 1 ulp", "ComplexSolution is constructed with the default frequency resolution 1e-3 (it offers no other)"]
 EXPLANATION = "direct exploration of ComplexSolution / DCSolution against an exact-rational phasor reference"
 
